@@ -393,6 +393,87 @@ def identity_work(args):
     return res
 
 
+def chain_stream(ck, thorough):
+    """Two chained roundings `with C1: a = round(x)` / `with C2: y = round(a)` of an argument whose format is known
+    (monomorphized): every lowering, applied to the second rounding alone and to all sites, must leave the function
+    unchanged on every member of the argument format.  The operand of the second rounding is a *result* (it can be the
+    NaN / infinity / substitute an overflow of C1 produces although the argument never is): the rewrites' use of
+    value-class and format facts about an operand is exercised here."""
+    import fpy2 as fp  # noqa: F401
+    from fpy2.strategies import monomorphize
+    from fpy2.types import RealType
+    args = [{'kind': 'fixed', 'signed': True, 'scale': 0, 'nbits': 6, 'rm': 'RNE', 'ov': 'SATURATE'},
+            {'kind': 'fixed', 'signed': True, 'scale': -1, 'nbits': 6, 'rm': 'RNE', 'ov': 'SATURATE'}]
+    first = [{'kind': 'efloat', 'es': 2, 'nbits': 4, 'enable_inf': False, 'nk': 'MAX_VAL', 'eoffset': 0, 'rm': 'RNE', 'ov': 'OVERFLOW'},
+             {'kind': 'efloat', 'es': 2, 'nbits': 5, 'enable_inf': False, 'nk': 'NEG_ZERO', 'eoffset': 0, 'rm': 'RTZ', 'ov': 'OVERFLOW'},
+             {'kind': 'ieee', 'es': 2, 'nbits': 4, 'rm': 'RNE', 'ov': 'OVERFLOW'},
+             {'kind': 'ieee', 'es': 3, 'nbits': 5, 'rm': 'RAZ', 'ov': 'OVERFLOW'},
+             {'kind': 'mpbfloat', 'p': 2, 'emin': -1, 'maxval': (False, 0, 3), 'rm': 'RNE', 'ov': 'OVERFLOW'},
+             {'kind': 'efloat', 'es': 3, 'nbits': 5, 'enable_inf': False, 'nk': 'IEEE_754', 'eoffset': 0, 'rm': 'RNE', 'ov': 'OVERFLOW'}]
+    second = [{'kind': 'ieee', 'es': 3, 'nbits': 6, 'rm': 'RNE', 'ov': 'OVERFLOW'},
+              {'kind': 'ieee', 'es': 2, 'nbits': 4, 'rm': 'RTZ', 'ov': 'OVERFLOW'},
+              {'kind': 'mpsfloat', 'p': 3, 'emin': -2, 'rm': 'RNE'},
+              {'kind': 'efloat', 'es': 2, 'nbits': 4, 'enable_inf': False, 'nk': 'MAX_VAL', 'eoffset': 0, 'rm': 'RNE', 'ov': 'OVERFLOW'},
+              {'kind': 'fixed', 'signed': True, 'scale': -1, 'nbits': 5, 'rm': 'RNE', 'ov': 'SATURATE'}]
+    combos = [(a, c1, c2) for a in args for c1 in first for c2 in second]
+    lines = ['import fpy2 as fp', 'from harness.c10lib import mk_ctx10', '']
+    for i, (a, c1, c2) in enumerate(combos):
+        lines += [f'A{i} = mk_ctx10({a!r})', f'P{i} = mk_ctx10({c1!r})', f'Q{i} = mk_ctx10({c2!r})', '',
+                  '@fp.fpy(ctx=fp.REAL)', f'def s{i}(x):', f'    with P{i}:', '        a = fp.round(x)', '        y = fp.round(a)', '    return y', '',
+                  '@fp.fpy(ctx=fp.REAL)', f'def t{i}(x):', f'    with P{i}:', '        a = fp.round(x)', f'    with Q{i}:', '        y = fp.round(a)', '    return y', '']
+    try:
+        mod = L.load_module(WORKDIR, 'c10_chain', '\n'.join(lines) + '\n')
+    except Exception as e:  # noqa
+        ck.broken.append(f'chained-rounding module did not load: {type(e).__name__}: {e}')
+        return
+    n = lowered = 0
+    for i, (a, c1, c2) in enumerate(combos):
+        A = getattr(mod, f'A{i}')
+        fmtA = A.format()
+        try:
+            members = [A.round(fp.Float.from_int(k)) if a['scale'] == 0 else A.round(fp.Float(c=abs(k), exp=a['scale'], s=k < 0))
+                       for k in range(-(2 ** (a['nbits'] - 1)), 2 ** (a['nbits'] - 1))]
+        except Exception as e:  # noqa
+            ck.broken.append(f'chained roundings: cannot enumerate the argument format: {e}')
+            return
+        for nm, how in ((f's{i}', A), (f't{i}', A), (f's{i}', fmtA), (f't{i}', fmtA)):
+            try:
+                # the argument pinned to a context (its values are that context's roundings: never NaN / inf for a
+                # fixed-point one) or to the bare format
+                mono = monomorphize(getattr(mod, nm), args=[RealType(how)])
+            except Exception as e:  # noqa   (a combination fpy2 refuses to specialise is not a case)
+                ck.count('chain:monomorphize-refused')
+                continue
+            base = [L.res_key(L.run_fn(mono, x)) for x in members]
+            for t in (L.T_F2F, L.T_SPECIAL, L.T_OVERFLOW, L.T_OVERFLOW_EARLY, L.T_NEGZERO, L.T_RESCALE):
+                variants = []
+                try:
+                    variants.append(('all', L.apply_T(t, mono)))
+                except Exception as e:  # noqa   refusal of the whole function: nothing to compare
+                    ck.count('chain:refused')
+                try:
+                    sites = L.sites_T(t, mono)
+                    if len(sites) >= 2:
+                        variants.append(('second', _apply_at(t, mono, sites[1])))
+                except Exception:  # noqa
+                    ck.count('chain:refused')
+                for where, g in variants:
+                    if g is None or g.ast.is_equiv(mono.ast):
+                        continue
+                    lowered += 1
+                    for x, want in zip(members, base):
+                        n += 1
+                        got = L.res_key(L.run_fn(g, x))
+                        if got != want:
+                            ck.violation('a lowering applied to the second of two chained roundings changed the result',
+                                         {'argument_format': a, 'first_context': c1, 'second_context': c2, 'program': nm[0],
+                                          'strategy': t, 'where': where, 'operand': repr(x), 'original': repr(want), 'lowered': repr(got)})
+                            break
+    ck.evaluations += n
+    ck.count('chain: lowered programs (second of two chained roundings, known argument format)', lowered)
+    ck.count('chain: operand evaluations', n)
+
+
 def run(ck):
     thorough = ck.tier == 'thorough'
     ck.trusted += [
@@ -466,6 +547,13 @@ def run(ck):
         for h in r['nontriv']:
             ck.nontrivial.add(h)
         ck.evaluations += r['nlines']
+    t1 = time.time()
+    try:
+        chain_stream(ck, thorough)
+    except Exception as e:  # noqa
+        import traceback
+        ck.broken.append('chained-rounding stream crashed: ' + traceback.format_exc()[-500:])
+    ck.log(f'chained roundings done in {time.time() - t1:.1f}s')
     ck.checker_cmds.append('build/C10/oracle_c10/oracle < <cases of each worker>  # extracted check_line10')
     ck.rule = ('per context of the enumeration (ten families, small parameters, 8 modes, 4 overflow modes, NaN/inf options, '
                'substitutes incl. zeros/inf/NaN): every k*2^(nmin-3) up to past twice the bound, both zeros, +-inf, +-NaN, far '
